@@ -1211,6 +1211,19 @@ func planFor(prop, tier string) (*plan, error) {
 	case "C18":
 		var ps []*pg.Program
 		ems := []string{"1", "2", "stack"}
+		for _, n := range []string{"single", "chain2"} {
+			f := exprConc(pg.Shape(n))
+			f.Emitters = "shared3"
+			f.Instrument = true
+			for i := range f.Tasks {
+				f.Tasks[i].Instrument = true
+			}
+			ps = append(ps, flowProg(f, "INS-shared:"+n))
+		}
+		{
+			q := &pg.Parallel{Items: []pg.Item{{Kind: "task", Err: true, Instrument: true}, {Kind: "task", Ctx: true, Instrument: true}}, Conc: "expr", Emitters: "shared3", Instrument: true}
+			ps = append(ps, parProg(q, "INS-shared:par"))
+		}
 		for _, n := range []string{"single", "chain2", "fork"} {
 			base := pg.Shape(n)
 			for _, sub := range subsetsInts(len(base.Tasks)) {
